@@ -20,7 +20,7 @@ import (
 // serialisation and revision history.
 
 func init() {
-	addRun("C04", "revision histories rendered by an independent serialiser (his_render.go, his_file.go: junk before the header, tables with subsections, xref streams with /Index and any /W incl. zero widths, deflate and PNG-Up via compress/zlib, hybrid /XRefStm files, object streams, /Prev chains, generation bumps, full and incremental sections, random white space/comments/EOLs/string and name spellings); exhaustive over {leave,define,free}^objects x {table,stream,hybrid} per revision for small histories, random beyond; every reference n g R (all numbers up to one past the largest, all generations up to one past the largest) is read with the real Reader.Get and compared with the reference semantics (Go copy as oracle, Lean Spec/HISHistory through the driver). A case is non-trivial when it has >=2 revisions or a non-table section; distinct by file bytes.", runC04)
+	addRun("C04", "revision histories rendered by an independent serialiser (his_render.go, his_file.go: junk before the header, tables with subsections, xref streams with /Index and any /W incl. zero widths, deflate and PNG-Up via compress/zlib, hybrid /XRefStm files, object streams (also with the index closed by newline, space or NOTHING and the first member - dict, array, string, hex string, name, integer, reference, boolean - 0, 1 or 2 bytes behind it), /Prev chains, generation bumps, full and incremental sections, random white space/comments/EOLs/string and name spellings); exhaustive over {leave,define,free}^objects x {table,stream,hybrid} per revision for small histories, random beyond; every reference n g R (all numbers up to one past the largest, all generations up to one past the largest) is read with the real Reader.Get and compared with the reference semantics (Go copy as oracle, Lean Spec/HISHistory through the driver). A case is non-trivial when it has >=2 revisions or a non-table section; distinct by file bytes.", runC04)
 	addReplay("C04", "history", replayC04History)
 	addRun("C04", "object spellings: random object trees (all byte values in names and strings, boundary integers, reals, references) written by the independent renderer with every conforming spelling choice and read back by the real scanner, bare and inside brackets, followed by random terminators; distinct by spelling, non-trivial when the spelling differs from the plain one", runC04Lex)
 	addReplay("C04", "lexical", replayC04Lex)
@@ -263,6 +263,30 @@ func hisCase(mode string, seed uint64, stat func(string)) *hisFile {
 		)}}}
 		return hisBuild(r, plan, false, stat)
 	}
+	if strings.HasPrefix(parts[0], "osd") {
+		// osd<sep>_<kind>_<delta>: an object stream whose FIRST member starts `delta` bytes behind
+		// the end of the index — sep n/s: a newline/space ends the index (inside /First), x: /First
+		// is the offset directly behind the last digit of the index; the remaining delta bytes are
+		// white space in front of the member.  delta = 0: the member (which starts with a delimiter)
+		// follows the last index digit directly; the library's own Writer never produces that.
+		var sep byte
+		var kind, delta int
+		fmt.Sscanf(parts[0][3:], "%c_%d_%d", &sep, &kind, &delta)
+		tail := map[byte]string{'n': "\n", 's': " ", 'x': ""}[sep]
+		first := hisOsdFirst[kind]
+		lead := delta - len(tail)
+		if lead < 0 || (delta == 0 && !first.delim) {
+			panic("his: impossible osd case " + parts[0])
+		}
+		infra, tr := hisInfraActions(4)
+		acts := append(infra, hisAction{Num: 2, Val: hisVal{Obj: pdf.Integer(42)}})
+		acts = append(acts, hisAction{Num: 1, Compressed: true, Val: hisVal{Obj: first.obj, Raw: []byte(first.text), Tight: true,
+			Lead: bytes.Repeat([]byte{Pick(r, []byte(" \n\r\t"))}, lead), IdxTail: &tail}})
+		acts = append(acts, hisAction{Num: 3, Compressed: true, Val: hisVal{Obj: pdf.Integer(int64(r.Intn(1000)))}})
+		acts = append(acts, hisAction{Num: 4, Compressed: true, Val: hisVal{Obj: pdf.Name("Last")}})
+		plan := &hisPlan{Version: "1.7", Revs: []hisRevPlan{{Kind: 1 + r.Intn(2), Trailer: tr, Actions: acts}}}
+		return hisBuild(r, plan, false, stat)
+	}
 	if strings.HasPrefix(parts[0], "osrv") {
 		// osrv<k>: the k-th edge case of hisOsrVariants
 		k, _ := strconv.Atoi(parts[0][4:])
@@ -283,6 +307,22 @@ func hisCase(mode string, seed uint64, stat func(string)) *hisFile {
 // library HEAD 7ec872d).  `denotes` is the value the member has: a conforming member that is
 // written as a reference denotes that reference; for the non-conforming texts it is what the
 // library documents, and only the byte-level model is compared with the code.
+// the first member of the osd documents: one of each kind of object start
+var hisOsdFirst = []struct {
+	text  string
+	obj   pdf.Object
+	delim bool
+}{
+	{"<</A 1/B[2 0 R]>>", pdf.Dict{"A": pdf.Integer(1), "B": pdf.Array{pdf.NewReference(2, 0)}}, true},
+	{"[1 /x(y)]", pdf.Array{pdf.Integer(1), pdf.Name("x"), pdf.String("y")}, true},
+	{"(str)", pdf.String("str"), true},
+	{"<414243>", pdf.String("ABC"), true},
+	{"/Name", pdf.Name("Name"), true},
+	{"17", pdf.Integer(17), false},
+	{"2 0 R", pdf.NewReference(2, 0), false},
+	{"true", pdf.Boolean(true), false},
+}
+
 type hisOsrMember struct {
 	text    string
 	denotes pdf.Object
@@ -596,6 +636,27 @@ func runC04(c *Ctx) {
 			qs := hisQueries(f)
 			c.Emit("HIS open "+hexWire(f.Bytes)+" "+hisDecodedToken(f)+" "+hisQueryToken(qs), hisOpenLine(f.Bytes, qs))
 			c.Stat("objstm_reference_edge_case")
+		}
+	}
+
+	// 1c. the first member of an object stream at delta = 0, 1, 2 bytes behind the index:
+	// index closed by {newline, space, nothing} x first member {dict, array, string, hex string,
+	// name, integer, reference, boolean}; every member must read back as written
+	for _, sep := range "nsx" {
+		for kind := range hisOsdFirst {
+			for delta := 0; delta <= 2; delta++ {
+				if (sep != 'x' && delta == 0) || (delta == 0 && !hisOsdFirst[kind].delim) {
+					continue
+				}
+				mode := fmt.Sprintf("osd%c_%d_%d", sep, kind, delta)
+				seed := r.U64()
+				one(mode, seed, true)
+				flush()
+				f := hisCase(mode, seed, nil)
+				qs := hisQueries(f)
+				c.Emit("HIS open "+hexWire(f.Bytes)+" "+hisDecodedToken(f)+" "+hisQueryToken(qs), hisOpenLine(f.Bytes, qs))
+				c.Stat(fmt.Sprintf("objstm_first_member_delta_%d", delta))
+			}
 		}
 	}
 
